@@ -433,6 +433,48 @@ fn sc_narrow(env: &Env, rep: &mut Report, name: &str) {
     rep.class("narrow-int");
 }
 
+// context structs through `#[derive(Context)]` (the `offset_of!` table of macros/src/lib.rs),
+// the same fields in three declaration orders / representations
+macro_rules! derived_ctx {
+    ($s:ident, $(#[$m:meta])* [$($f:ident : $t:ty),*], $label:literal, $fname:ident) => {
+        #[derive(Clone, Context)]
+        $(#[$m])*
+        pub struct $s { $(pub $f: $t),* }
+        fn $fname(env: &Env, rep: &mut Report, name: &str) {
+            $( let _ = <$t as Value>::resolve(); )*
+            let rt = match base_runtime().with_context_type::<$s>() {
+                Ok(rt) => rt,
+                Err(e) => { rep.mismatch("a derived context type was refused", json!({"case": name, "error": e})); return }
+            };
+            let mut src = String::new();
+            $( src.push_str(&format!("fn get_{n}() -> {t} {{ {n} }}\n", n = stringify!($f), t = <$t as BT>::desc().roto())); )*
+            let Some(mut pkg) = compile(&rt, &src, rep, name) else { return };
+            let mut p = Prng::for_case(env.seed, h64(name));
+            for k in 0..env.rounds {
+                let mut ctx = $s { $($f: <$t as BT>::gen_val(&mut p, k.wrapping_add(h64(stringify!($f)) as u32 % 7))),* };
+                $( {
+                    let want = ctx.$f.show();
+                    let f = pkg.get_function::<fn() -> $t>(concat!("get_", stringify!($f))).unwrap();
+                    let got = f.call(&mut ctx).show();
+                    rep.evaluations += 1;
+                    if got != want {
+                        let mut input = json!({"script": src, "field": stringify!($f), "field_value": want, "read": got, "round": k,
+                            "offsets": <$s as Context>::fields().iter().map(|f| (f.name, f.offset)).collect::<Vec<_>>()});
+                        input["case"] = json!(name);
+                        rep.violation("a context field read by a script differs from the field's value",
+                            &format!("context-field:{}:{}", $label, <$t as BT>::desc().class()), input);
+                        return;
+                    }
+                } )*
+            }
+            rep.class(format!("ctxderive:{}", $label));
+        }
+    };
+}
+derived_ctx!(DCtx1, [a: u8, b: u64, c: Val<X16>, d: u16, e: RotoString, f: bool, g: IpAddr, z: Val<Z0>, h: f32, i: Val<B3>], "declared", sc_dctx1);
+derived_ctx!(DCtx2, [i: Val<B3>, h: f32, z: Val<Z0>, g: IpAddr, f: bool, e: RotoString, d: u16, c: Val<X16>, b: u64, a: u8], "reversed", sc_dctx2);
+derived_ctx!(DCtx3, #[repr(C)] [f: bool, c: Val<X16>, a: u8, e: RotoString, d: u16, z: Val<Z0>, b: u64, i: Val<B3>, g: IpAddr, h: f32], "repr-C", sc_dctx3);
+
 include!("../c05/positions.in");
 
 // ------------------------------------------------------------------ case list
@@ -467,6 +509,9 @@ fn cases() -> Vec<Case> {
     macro_rules! heavy { ($($t:ty);* $(;)?) => { $( position_cases!($t, cases); )* } }
     core_types!(heavy);
     cases.push(Case { name: "narrow ints".into(), run: sc_narrow });
+    cases.push(Case { name: "ctxderive declared".into(), run: sc_dctx1 });
+    cases.push(Case { name: "ctxderive reversed".into(), run: sc_dctx2 });
+    cases.push(Case { name: "ctxderive repr-C".into(), run: sc_dctx3 });
     cases
 }
 
@@ -820,7 +865,7 @@ fn main() {
         }
         Some("worker") => {
             let seed: u64 = args[2].parse().unwrap();
-            let rounds = if args[3] == "thorough" { 48 } else { 10 };
+            let rounds = if args[3] == "thorough" { 64 } else { 24 };
             let (from, n): (u64, u64) = (args[4].parse().unwrap(), args[5].parse().unwrap());
             run_range(&Env { seed, rounds }, from, n).emit();
         }
